@@ -78,6 +78,17 @@ FoldFrom(parts, i, acc) ==   \* acc = [st |-> "E" | "ok" | "unrenderable", ids |
 FoldCrit(parts) == FoldFrom(parts, 1, [st |-> "E", ids |-> <<>>])
 \* the intended algebra (identity on both sides): the non-empty parts in order
 FoldIntended(parts) == LET ne == SelectSeq(parts, LAMBDA p : p # "E") IN IF ne = <<>> THEN [st |-> "E", ids |-> <<>>] ELSE [st |-> "ok", ids |-> ne]
+\* CustomFunction(name, params)(*args): declared = "none" (no parameter list given) or the number of declared parameters, given = the number
+\* of arguments of the call (both as strings "0".."4").  With a parameter list the call is accepted exactly when the numbers agree and the
+\* function carries the arguments; WITHOUT one every call is accepted and its arguments are DROPPED (named deviation DevNoParamsDropsArgs:
+\* F = CustomFunction("F"); F(x) renders F()).
+CustomCall(declared, given) ==
+    IF declared = "none" THEN [st |-> "ok", ids |-> <<"0">>]
+    ELSE IF declared = given THEN [st |-> "ok", ids |-> <<given>>]
+    ELSE [st |-> "FunctionException", ids |-> <<>>]
+\* what a caller may rely on: an accepted call of a function WITH a parameter list carries exactly the declared number of arguments
+ArityExact(declared, given) == LET r == CustomCall(declared, given) IN (declared # "none" /\ r.st = "ok") => r.ids = <<declared>>
+
 \* The render paths of one statement - str(), repr(), get_sql() without a context, get_sql(the context of its query class) - are one
 \* action: they yield one text (outs = the texts, in that order).
 PathsAgree(outs) == \A i, j \in DOMAIN outs : outs[i] = outs[j]
